@@ -465,6 +465,11 @@ class MolGraph:
                      should be created
         :return: this object (self) or a new instance of self.__class__
         """
+        new_labels = {mapping.get(atom, atom) for atom in self._atom_attrs}
+        if len(new_labels) != len(self._atom_attrs):
+            raise ValueError(
+                "The mapping gives the same label to two atoms of the graph"
+            )
         atom_attrs = {
             mapping.get(atom, atom): deepcopy(attrs) if copy else attrs
             for atom, attrs in self._atom_attrs.items()
